@@ -400,6 +400,8 @@ class Run:
                 'checker_cmd': f'cd /verif/lean && lake build KamalProxy.Properties.{self.pid} && lake env lean <audit of KamalProxy.{self.pid}.* with collectAxioms>' + (' && lake env leanchecker' if self.tier == 'thorough' else ''),
                 'trusted_base': TRUSTED_BASE + self.prop.get('trusted_extra', []),
                 'theorems': ob['theorems'], 'broken_obligations': ob['broken'],
+                'property_theorems': [t for t in ob['theorems'] if re.search(r'\.(C\d\d_|tie_)', t)],
+                'helper_lemmas': [t for t in ob['theorems'] if not re.search(r'\.(C\d\d_|tie_)', t)],
                 'evaluations': cases, 'distinct_nontrivial': nontriv,
                 'rule': self.prop.get('rule', ''), 'samples': samples,
                 'observations_compared': sum(t['compared'] for _, t in totals), 'observation_kinds': kinds,
